@@ -203,10 +203,10 @@ func GenerateConcurrent(t *rapid.T) *ConcProgram {
 		g.feat("handoff")
 		w("\tgo func() {\n\t\tmu.Lock()\n\t\thanded = %d\n\t\tready = true\n\t\tcond.Broadcast()\n\t\tmu.Unlock()\n\t}()\n", g.lit("handval"))
 		w("\tmu.Lock()\n\tfor !ready {\n")
-		if g.chance("waittimeout", 30) {
+		if g.chance("waittimeout", 45) {
 			useMachine = true
 			g.feat("wait-timeout")
-			w("\t\tmachine.WaitTimeout(cond, %d)\n", []int{0, 1, 5}[g.pick("wtms", 3)])
+			w("\t\tmachine.WaitTimeout(cond, %d)\n", []int{0, 0, 1, 5}[g.pick("wtms", 4)])
 		} else {
 			w("\t\tcond.Wait()\n")
 		}
@@ -217,10 +217,10 @@ func GenerateConcurrent(t *rapid.T) *ConcProgram {
 		w("\twg.Wait()\n")
 	case "cond-counter":
 		w("\tmu.Lock()\n\tfor done < %d {\n", nthreads)
-		if g.chance("joinwaittimeout", 25) {
+		if g.chance("joinwaittimeout", 40) {
 			useMachine = true
 			g.feat("wait-timeout")
-			w("\t\tmachine.WaitTimeout(cond, %d)\n", []int{0, 1, 5}[g.pick("jwtms", 3)])
+			w("\t\tmachine.WaitTimeout(cond, %d)\n", []int{0, 0, 1, 5}[g.pick("jwtms", 4)])
 		} else {
 			w("\t\tcond.Wait()\n")
 		}
